@@ -60,6 +60,12 @@ def direct(rep, t, rnd):
             tol = sched
         else:
             tol = round(rnd.choice([rnd.uniform(0.05, 1.0), rnd.uniform(0.1, 6.0), rnd.uniform(1.0, 40.0)]), 3)
+        # boundary tolerances: exactly zero (int and float), and schedules made of zeros - the routine may then only
+        # return nothing or its input
+        if k % 12 == 5:
+            tol = [rnd.choice([0, 0.0])] * rnd.choice([1, 2]) if fn == "gac" else rnd.choice([0, 0.0])
+        elif k % 12 == 11 and fn == "gac":
+            tol = [0.0, round(rnd.uniform(0.05, 0.6), 3)]
         jobs.append((fn, text, bg, tol, target, large))
     evs = [e for e in vlib.pool_map(_call, jobs, chunksize=4) if e is not None]
     rep.extra["direct_calls"] = len(evs)
